@@ -337,7 +337,7 @@ def check_sampled(case):
 @st.composite
 def netlist_cases(draw, tier):
     nl = draw(gen.netlists(min_inputs=1, max_inputs=4, max_gates=14, max_arity=4, min_outputs=1, max_outputs=3,
-                           styles=('plain', 'mixed')))
+                           styles=('plain', 'mixed'), const_operands=(0, 0, 1, 2, 3)))
     if not nl['outputs']:
         nl['outputs'] = [nl['gates'][-1][0]]
     return {'nl': nl, 'route': draw(gen.routes(nl))}
